@@ -94,6 +94,7 @@ def lastOp (x : String) : List Fn → Option Bool
       | .allow g => if g = x then some false else none
       | .userFin add g => if g = x then some add else none
       | .setStatus _ _ => none
+      | .appendStatus _ _ => none
 
 /-- membership in the finalizer list after the fns: decided by the last function that mentions the
     finalizer, else by the state the fns were applied to. -/
@@ -136,6 +137,7 @@ theorem mem_applyFns (x : String) (fs : List Fn) (o : Obj) :
           · have : ¬ x = g := fun h => e h.symm
             simp [e, this]
       | setStatus k v => simp [Fn.app]
+      | appendStatus k v => simp [Fn.app]
 
 /-! ## requests only accumulate -/
 
